@@ -10,6 +10,17 @@ COMMON_NOTE = ("Trusted base: pyvc engine (AST transform T1-T3 of the real sourc
                "lift to C), A3 (integer powers), A4 (path forking via z3), A5 (numpy shim contracts, listed per run in evidence.trusted_base). ")
 
 CLAIMED = {
+    "C40": dict(
+        category="exploration",
+        text=("BOUNDED stand-in, never counted as proved: YAML and the dataclass / typing reflection of eko.io.dictlike are outside the symbolic engine. `deal` run-time contracts on the real "
+              "functions are evaluated natively over an enumerated input set (bounded/C40_native.py): the raw form is plain safe-YAML data; from_dict(safe-YAML(raw)) has the same field values "
+              "(arrays by value, x-grid by nodes and logarithmic flag); runner.commons.interpolator uses the declared nodes, degree and interpolation_is_log (card as built, after a reload, and "
+              "with the kind declared in the configs only). Inputs: theory cards over orders, mass schemes, N3LO variations, Python / NumPy numbers; operator cards covering every "
+              "EvolutionMethod / ScaleVariationsMethod / InversionMethod value, log and linear grids, NumPy numbers; four ad-hoc DictLike classes. Two defect classes repaired by fix commits."),
+        note="Bounded: 274 contract evaluations, no claim beyond the stated input set. Runs the untransformed package under plain CPython (overlay venv).",
+        technique="bounded stand-in: deal run-time contracts on the real functions over an enumerated input set",
+        design_ref="DESIGN.md section 2, C40",
+    ),
     "C36": dict(
         category="exploration",
         text=("BOUNDED stand-in, never counted as proved: the serialisation layer (numpy.save/load, lz4, YAML, tarfile) is library code outside the symbolic engine. `deal` run-time contracts "
